@@ -90,9 +90,12 @@ class Message:
 
         # Parse headers into key/value pairs paying attention
         # to continuation lines.
+        nfields = 0
         while lines:
-            if len(headers) >= self.limit_request_fields:
+            # every field line counts, also one that is dropped below
+            if nfields >= self.limit_request_fields:
                 raise LimitRequestHeaders("limit request headers fields")
+            nfields += 1
 
             # Parse initial header name: value pair.
             curr = lines.pop(0)
